@@ -560,6 +560,13 @@ def replay_C08(w, clause):
     if "facts" in w:
         rows = c08.payload_rows()
         bad = []
+        if w["facts"] == "every_request_and_response_class_advertises_api_key_and_header_schema":
+            from . import shapes
+
+            silent = [shapes.class_id(c) for c in shapes.all_entity_classes()
+                      if getattr(getattr(c, "__type__", None), "name", None) in ("request", "response")
+                      and (getattr(c, "__api_key__", None) is None or getattr(c, "__header_schema__", None) is None)]
+            return {"reproduced": bool(silent), "sig": {"kind": "facts", "rule": w["facts"]}, "detail": f"no API key / header schema on {silent[:3]} (+{max(0, len(silent) - 3)} more)"}
         for r in rows:
             if r["type"] == "request":
                 want = 0 if (r["key"] == 7 and r["version"] == 0) else (2 if r["flexible"] else 1)
@@ -676,8 +683,11 @@ def replay_C15(w, clause):
         return {"reproduced": True, "sig": {"kind": "eq_disagrees_with_fieldwise"}, "detail": f"{w['class']}: a == b is {got} but field-wise equality is {spec}"}
     if not (a == a) or (a != b) == got:
         return {"reproduced": True, "sig": {"kind": "eq_not_reflexive_or_ne_inconsistent"}, "detail": w["class"]}
-    if got and hash(a) != hash(b):
-        return {"reproduced": True, "sig": {"kind": "equal_but_hash_differs"}, "detail": w["class"]}
+    try:
+        if got and hash(a) != hash(b):
+            return {"reproduced": True, "sig": {"kind": "equal_but_hash_differs"}, "detail": w["class"]}
+    except TypeError as e:
+        return {"reproduced": True, "sig": {"kind": "unhashable"}, "detail": f"{w['class']}: {e}"}
     return {"reproduced": False, "detail": "__eq__ agrees with field-wise equality"}
 
 
